@@ -208,6 +208,8 @@ uper_put_nslength(asn_per_outp_t *po, size_t length) {
         return per_put_few_bits(po, length - 1, 7) ? -1 : 0;
     } else {
         int need_eom = 0;
+        /* #11.9.3.4: a single bit 1, then the general length determinant */
+        if(per_put_few_bits(po, 1, 1)) return -1;
         if(uper_put_length(po, length, &need_eom) != (ssize_t)length
            || need_eom) {
             /* This might happen in case of >16K extensions */
